@@ -1,7 +1,41 @@
 package checks
 
-import "verif/harness/core"
+import (
+	"math/rand/v2"
 
-// filled in by the persist family and the otel driver
+	"verif/harness/busdrv"
+	"verif/harness/core"
+)
+
+// filled in by the persist family
 var c20Persist = func(r *core.Run) {}
-var c20Otel = func(r *core.Run) {}
+
+// c20Otel re-runs bus workloads with the real OpenTelemetry observability in front of the recording one
+// (child processes started with VERIF_OTEL=1): the SDK's span recorder and manual metric reader are compared
+// with the callbacks recorded in the same run, and the run is validated against BusTrace.tla as usual.
+func c20Otel(r *core.Run) {
+	rnd := rand.New(rand.NewPCG(uint64(r.Seed), 2021))
+	obsOn := allCfgs(func(c busdrv.Cfg) bool { return c.Obs })
+	for i := range obsOn {
+		if i%2 == 0 {
+			obsOn[i].Closer = true // a store: persist spans and counters
+		}
+	}
+	g := busdrv.GenOpts{Procs: 1, OpsPerProc: [2]int{8, 30}, Types: 2, Async: 0.4, Once: 0.25, Seq: 0.3, Filt: 0.15, Panics: 0.35, Body: 0.2, CtxBody: 0.2,
+		Kinds: []string{"sub", "sub", "sub", "unsub", "count", "pub", "pub", "pub", "pub", "cancel", "wait"},
+		Ctxs:  []string{"c1", "c2"}, Cfgs: obsOn}
+	var scripts []busdrv.Script
+	for i := 0; i < r.Pick(250, 4000); i++ {
+		s := g.Random(rnd)
+		scripts = append(scripts, s)
+		r.Case("otel/" + scriptKey(s))
+	}
+	busdrv.ExecAndValidate(r, scripts, busdrv.ExecOpts{Name: "c20-otel", Self: Self(), Seed: uint64(r.Seed), Env: []string{"VERIF_OTEL=1"},
+		HangIsViolation: true, HangClause: "calls-return", CrashClause: "no-panic-escapes", Classify: func(s busdrv.Script, rej busdrv.Rejection) (string, string) {
+			c, sc := classifyBus(s, rej)
+			if c == "unexplained-otel" {
+				return "opentelemetry-spans-and-counters", sc
+			}
+			return c, sc
+		}})
+}
